@@ -319,8 +319,9 @@ class TBRiROAS():
         'date'].unique()
 
     if self._is_fixed_cost_scenario() and metric == 'tbr_cost':
-      tmp_data = metric_data[metric_data[self.df_names.group] ==
-                             self.groups.treatment].reset_index(drop=True)
+      tmp_data = metric_data[
+          (metric_data[self.df_names.group] == self.groups.treatment) &
+          (metric_data['period'].isin(periods))].reset_index(drop=True)
       counterfactual_df = common_classes.EstimatedTimeSeriesWithConfidenceInterval(
           {
               'date': dates,
@@ -363,7 +364,8 @@ class TBRiROAS():
           'metric'].values, upper))
       # Get the test- period data in the form needed for regression.
       treat_vec = metric_data.loc[
-          metric_data[self.df_names.group] == self.groups.treatment,
+          (metric_data[self.df_names.group] == self.groups.treatment) &
+          (metric_data['period'].isin(periods)),
           metric_col].reset_index(drop=True)
 
       counterfactual_df = common_classes.EstimatedTimeSeriesWithConfidenceInterval(
